@@ -245,6 +245,7 @@ fn run_split(case: &Sx) -> (Sx, String) {
     match case.at(0).as_u() {
         2 => (Sx::l(GRLParser::verif_split_arguments(&text).iter().map(|p| Sx::s(p)).collect()), "split-arguments".into()),
         3 => (match GRLParser::verif_find_outside_strings(&text, &case.at(2).as_s()) { Some(i) => Sx::l(vec![Sx::us(i)]), None => Sx::l(vec![]) }, "find-outside".into()),
+        5 => (match GRLParser::verif_split_when_then(&text) { Some((c, a)) => Sx::l(vec![Sx::s(&c), Sx::s(&a)]), None => Sx::l(vec![]) }, "when-then".into()),
         _ => match GRLParser::verif_parse_then_clause(&text) {
             Ok(acts) => (Sx::l(vec![Sx::n(0), Sx::l(acts.iter().map(|a| match a {
                 A::Append { field, .. } => Sx::l(vec![Sx::n(0), Sx::s(field)]),
@@ -260,7 +261,7 @@ fn run_split(_case: &Sx) -> (Sx, String) { (Sx::l(vec![Sx::n(9)]), "no hook".int
 /// texts for the splitting layer: statements / arguments built from fields, literals in both quote characters whose content is full of
 /// separators, the other quote character, '=', "+=", parentheses and multi-byte characters, custom calls, blanks; plus raw token soups
 fn gen_split(tier: Tier, rng: &mut Rng, v: &mut Vec<Sx>) {
-    const INSIDE: [&str; 14] = [";", ",", "=", "+=", " ", "a", "(", ")", "é", "💥", "x;y", "k=v", "\t", "."];
+    const INSIDE: [&str; 17] = [";", ",", "=", "+=", " ", "a", "(", ")", "é", "💥", "x;y", "k=v", "\t", ".", "}", "{", " then "];
     let lit = |rng: &mut Rng| -> String { let q = if rng.chance(1, 2) { '"' } else { '\'' }; let other = if q == '"' { "'" } else { "\"" };
         let k = rng.range(0, 5); let mut s = String::new(); s.push(q);
         for _ in 0..k { if rng.chance(1, 5) { s.push_str(other); } else { s.push_str(*rng.pick(&INSIDE)); } } s.push(q); s };
@@ -287,8 +288,19 @@ fn gen_split(tier: Tier, rng: &mut Rng, v: &mut Vec<Sx>) {
         v.push(Sx::l(vec![Sx::n(2), Sx::s(&a)]));
         // find_outside_strings on both, and on raw soups (unterminated literals included)
         let soup: String = (0..rng.range(0, 10)).map(|_| *rng.pick(&["\"", "'", "=", "+=", ";", ",", "a", " ", "é", "=="])).collect::<Vec<&str>>().concat();
-        for t in [&s, &a, &soup] { v.push(Sx::l(vec![Sx::n(3), Sx::s(t), Sx::s(*rng.pick(&["=", "+=", ",", ";", "é"]))])); }
+        for t in [&s, &a, &soup] { v.push(Sx::l(vec![Sx::n(3), Sx::s(t), Sx::s(*rng.pick(&["=", "+=", ",", ";", "é", "}", "{", " then "]))])); }
         v.push(Sx::l(vec![Sx::n(2), Sx::s(&soup)]));
+        // a rule body for split_when_then: the keywords with all kinds of white space (or none) around them, `when` / `then` inside words and
+        // inside literals, missing clauses, several `then`
+        let wsp = |rng: &mut Rng| -> &'static str { *rng.pick(&[" ", " ", "  ", "\t", "\u{a0}", "", " \t "]) };
+        let mut b = String::new();
+        b.push_str(wsp(rng)); if rng.chance(1, 6) { b.push_str("whenever "); }
+        if rng.chance(9, 10) { b.push_str("when"); } b.push_str(wsp(rng));
+        for _ in 0..rng.range(0, 4) { match rng.below(6) { 0 => b.push_str(&lit(rng)), 1 => b.push_str("X.a == "), 2 => b.push_str(" && "), 3 => b.push_str("\"now then go\""), 4 => b.push_str("athen "), _ => b.push_str("Y.b > 1") } }
+        b.push_str(wsp(rng)); if rng.chance(9, 10) { b.push_str("then"); } b.push_str(wsp(rng));
+        for _ in 0..rng.range(0, 3) { match rng.below(4) { 0 => b.push_str("X.c = 1;"), 1 => b.push_str(" then "), 2 => b.push_str(&lit(rng)), _ => b.push_str("Log(\"x then y\");") } }
+        v.push(Sx::l(vec![Sx::n(5), Sx::s(&b)]));
+        if rng.chance(1, 3) { v.push(Sx::l(vec![Sx::n(5), Sx::s(&soup)])); }
     }
 }
 
